@@ -57,6 +57,26 @@ CLAIMED = {
              'soundness are not decided.',
         note=STATIC_NOTE,
         technique='static analysis: HIR effect-schedule extraction + normal-form comparison; MIR must-call'),
+    'C04': dict(
+        text="Constraint-flow static lints over the native-field gadgets: hint coverage of every assign_advice site by an activated constraint (offset-root matching), no dead assigned-cell value in gadget code, who-may-construct discipline for invariant-carrying types and *_unsafe hatches, and a frozen must-call table of unconditional constraint-emitting calls. Necessary conditions for 'no unconstrained hint / no dropped constraint'; the algebra (coefficients, formulas, bounds) is explicitly not decided.",
+        note=STATIC_NOTE + ' Frozen tables: rules/d4_sites.json, rules/mustcall.json (generated once by tools/gen_rules.py from the reference tree, reviewed, never regenerated at run time), analysis/tables.py D1_TABLE / D3_TABLE.',
+        technique='static analysis: HIR/MIR constraint-flow lints (hint coverage, dead values, typestate who-may-construct, must-call)'),
+    'C05': dict(
+        text="Constraint-flow static lints over the foreign-field and big-integer gadgets: hint coverage of every assign_advice site by an activated constraint (offset-root matching), no dead assigned-cell value in gadget code, who-may-construct discipline for invariant-carrying types and *_unsafe hatches, and a frozen must-call table of unconditional constraint-emitting calls. Necessary conditions for 'no unconstrained hint / no dropped constraint'; the algebra (coefficients, formulas, bounds) is explicitly not decided.",
+        note=STATIC_NOTE + ' Frozen tables: rules/d4_sites.json, rules/mustcall.json (generated once by tools/gen_rules.py from the reference tree, reviewed, never regenerated at run time), analysis/tables.py D1_TABLE / D3_TABLE.',
+        technique='static analysis: HIR/MIR constraint-flow lints (hint coverage, dead values, typestate who-may-construct, must-call)'),
+    'C06': dict(
+        text="Constraint-flow static lints over the elliptic-curve gadgets: hint coverage of every assign_advice site by an activated constraint (offset-root matching), no dead assigned-cell value in gadget code, who-may-construct discipline for invariant-carrying types and *_unsafe hatches, and a frozen must-call table of unconditional constraint-emitting calls. Necessary conditions for 'no unconstrained hint / no dropped constraint'; the algebra (coefficients, formulas, bounds) is explicitly not decided.",
+        note=STATIC_NOTE + ' Frozen tables: rules/d4_sites.json, rules/mustcall.json (generated once by tools/gen_rules.py from the reference tree, reviewed, never regenerated at run time), analysis/tables.py D1_TABLE / D3_TABLE.',
+        technique='static analysis: HIR/MIR constraint-flow lints (hint coverage, dead values, typestate who-may-construct, must-call)'),
+    'C07': dict(
+        text="Constraint-flow static lints over the hash chips and the third-party hash wrappers: hint coverage of every assign_advice site by an activated constraint (offset-root matching), no dead assigned-cell value in gadget code, who-may-construct discipline for invariant-carrying types and *_unsafe hatches, and a frozen must-call table of unconditional constraint-emitting calls. Necessary conditions for 'no unconstrained hint / no dropped constraint'; the algebra (coefficients, formulas, bounds) is explicitly not decided.",
+        note=STATIC_NOTE + ' Frozen tables: rules/d4_sites.json, rules/mustcall.json (generated once by tools/gen_rules.py from the reference tree, reviewed, never regenerated at run time), analysis/tables.py D1_TABLE / D3_TABLE.',
+        technique='static analysis: HIR/MIR constraint-flow lints (hint coverage, dead values, typestate who-may-construct, must-call)'),
+    'C19': dict(
+        text="Constraint-flow static lints over the in-circuit automaton / base64 / parser chips (only this half of the property): hint coverage of every assign_advice site by an activated constraint (offset-root matching), no dead assigned-cell value in gadget code, who-may-construct discipline for invariant-carrying types and *_unsafe hatches, and a frozen must-call table of unconditional constraint-emitting calls. Necessary conditions for 'no unconstrained hint / no dropped constraint'; the algebra (coefficients, formulas, bounds) is explicitly not decided.",
+        note=STATIC_NOTE + ' Frozen tables: rules/d4_sites.json, rules/mustcall.json (generated once by tools/gen_rules.py from the reference tree, reviewed, never regenerated at run time), analysis/tables.py D1_TABLE / D3_TABLE.',
+        technique='static analysis: HIR/MIR constraint-flow lints (hint coverage, dead values, typestate who-may-construct, must-call)'),
     'C08': dict(
         text='Static sibling rules between the in-circuit exposure and the off-circuit encoding: every Instantiable type has an exposure impl; in each impl '
              'constrain_as_public_input constrains exactly the as_public_input vector (call + iteration / delegation / same fields) and assign_as_public_input '
